@@ -82,6 +82,12 @@ def cases(tier, seed):
                             continue
                         out.append({"kind": "group", "tree": t, "transform": tname, "targs": targs, "cache": cache,
                                     "out": outmode, "fmt": fmt})
+        # --cache with XDG_CACHE_HOME set to an empty string / a relative path (both are to be ignored, says the XDG
+        # specification) while the command runs inside the scanned tree: the database may not appear there
+        for xdg in ("", "relcache", ".cache"):
+            for tname, targs in TRANSFORMS[:2]:
+                out.append({"kind": "group", "tree": t, "transform": tname, "targs": targs, "cache": True, "out": "stdout",
+                            "fmt": "default", "xdg": xdg})
         for op in D.OPS:
             for outmode in ("stdout", "file"):
                 for opts in DRY_OPTS:
@@ -120,7 +126,13 @@ def evaluate(case):
             args = ["group", "--min", "0"] + gargs + case["targs"] + (["--cache"] if case["cache"] else []) + \
                    ["-f", case["fmt"]] + (["-o", outfile] if case["out"] == "file" else []) + ["r"]
             feat = {"kind": "tree_modified", "mode": case["transform"], "cache": case["cache"]}
-            res = S.run_with_shim(sc, args, [sc.tree], "mr")
+            xenv = None
+            if case.get("xdg") is not None:
+                xenv = {"XDG_CACHE_HOME": case["xdg"]}
+                feat["xdg_cache_home"] = "empty" if case["xdg"] == "" else "relative"
+            if xenv:
+                args = args[:-1] + ["."]      # started inside the scanned directory
+            res = S.run_with_shim(sc, args, [sc.tree], "mr", env_extra=xenv, cwd=os.path.join(sc.tree, "r") if xenv else None)
         else:
             target = os.path.join(sc.root, "moved")
             args = list(D.OPS[case["op"]]) + case["opts"] + ["--dry-run"] + (["-o", outfile] if case["out"] != "stdout" else []) + \
@@ -145,7 +157,7 @@ def evaluate(case):
         if left:
             viol.append(dict(feat, kind="temp_files_left", detail="%s left %s in TMPDIR" % (ctx, left[:5])))
         home = os.listdir(os.path.join(sc.envdir, "home"))
-        if home:
+        if home and case.get("xdg") is None:
             viol.append(dict(feat, kind="files_in_home", detail="%s created %s in HOME" % (ctx, home[:5])))
         reads = sum(1 for e in res["events"] if e.cls == "r")
     key = [case["kind"], case["tree"], case.get("transform"), case.get("cache"), case.get("op"), case["out"],
